@@ -553,4 +553,135 @@ example : AllFresh (init 1 1 1)
 example : AllSameRun (init 1 1 1) [.call (some 7) 0 true 0 true, .modelChange 2, .krigeCall none (some 0), .call none 0 true 0 true] :=
   histories_same_run _ _ (init_linkInv 1 1 1)
 
+/-! ## stored-field bookkeeping over several meshes (`field_names` of both objects)
+
+  `XState` adds, to the cache state, the names of the stored fields whose contents are never read back (conditioned field,
+  unconditional field, kriging field).  `crfStored x slot n` / `krigeStored x slot n` say whether the CondSRF / Krige object
+  stores a field in slot `slot` under name `n`.  The harness compares `field_names` of both real objects with these
+  predicates after EVERY operation of every history. -/
+
+/-- the extended machine is the cache machine plus bookkeeping: every theorem above about `step` / `run` transfers -/
+theorem xstep_core (x : XState) (op : Op) (a : Aux) :
+    (xstep x op a).1.core = (step x.core op).1 ∧ (xstep x op a).2 = (step x.core op).2 := ⟨rfl, rfl⟩
+
+/-- **`crf.delete_fields()` leaves no stored field in the CondSRF object** (whatever was stored, under whatever names, in
+    whatever order) -/
+theorem delete_clears (x : XState) (a : Aux) (slot n : Nat) :
+    crfStored (xstep x .deleteFields a).1 slot n = false := by
+  unfold crfStored
+  split <;> simp [xstep, xstepWith, namesStep, stepWith, NameSet.empty, FieldStore.empty]
+
+/-- **`crf.krige.delete_fields()` leaves no stored field in the Krige object** -/
+theorem krigeDelete_clears (x : XState) (a : Aux) (slot n : Nat) :
+    krigeStored (xstep x .krigeDeleteFields a).1 slot n = false := by
+  unfold krigeStored
+  split <;> simp [xstep, xstepWith, namesStep, stepWith, NameSet.empty, FieldStore.empty]
+
+/-- **`krige.set_condition(...)` (new data or refresh) leaves no stored field in the Krige object** -/
+theorem setCondition_clears (x : XState) (c? : Option Nat) (a : Aux) (slot n : Nat) :
+    krigeStored (xstep x (.setCondition c?) a).1 slot n = false := by
+  unfold krigeStored
+  split <;> simp [xstep, xstepWith, namesStep, stepWith, NameSet.empty, FieldStore.empty]
+
+/-- **`crf.set_pos(new positions)` leaves no stored field in either object** -/
+theorem setPos_change_clears (x : XState) (p : Nat) (a : Aux) (hp : x.core.pos ≠ some p) (slot n : Nat) :
+    crfStored (xstep x (.setPos p) a).1 slot n = false ∧ krigeStored (xstep x (.setPos p) a).1 slot n = false := by
+  unfold crfStored krigeStored
+  constructor <;> split <;>
+    simp [xstep, xstepWith, namesStep, stepWith, setPos, hp, Names.empty, NameSet.empty, FieldStore.empty]
+
+/-- `crf.krige.set_pos(new positions)` leaves no stored field in the Krige object (the CondSRF object keeps its fields:
+    they are protected by the link test, `histories_fresh`) -/
+theorem krigeSetPos_change_clears (x : XState) (p : Nat) (a : Aux) (hp : x.core.pos ≠ some p) (slot n : Nat) :
+    krigeStored (xstep x (.krigeSetPos p) a).1 slot n = false := by
+  unfold krigeStored
+  split <;> simp [xstep, xstepWith, namesStep, stepWith, krigeSetPos, hp, NameSet.empty, FieldStore.empty]
+
+theorem reusable_empty (rule : Rule) (s : State) (rn vn : Nat) (h : s.raw = FieldStore.empty) :
+    reusable rule s rn vn = none := by
+  unfold reusable; simp [h, FieldStore.empty]
+
+/-- **a CondSRF call on a new mesh keeps nothing of the earlier meshes**: after `crf(new positions, store=…,
+    krige_store=…)` the fields stored in both objects are exactly the ones this call stored — however many meshes were
+    used before, whatever was stored on them and under whatever names.  (So no later operation can find a field of an
+    earlier mesh.) -/
+theorem call_change_stores_exactly (x : XState) (p rn : Nat) (st : Bool) (vn : Nat) (kst : Bool) (a : Aux)
+    (hp : x.core.pos ≠ some p) (n : Nat) :
+    let x' := (xstep x (.call (some p) rn st vn kst) a).1
+    (crfStored x' 0 n = (a.fSave && decide (n = a.fName))) ∧
+    (crfStored x' 1 n = (a.rfSave && decide (n = a.rfName))) ∧
+    (crfStored x' 2 n = (st && decide (n = rn))) ∧
+    (krigeStored x' 0 n = (a.kfSave && decide (n = a.kfName))) ∧
+    (krigeStored x' 1 n = (kst && decide (n = vn))) := by
+  have hset : setPos x.core p = { x.core with pos := some p, raw := FieldStore.empty, var := FieldStore.empty } := by
+    unfold setPos; simp [hp]
+  have hre : reusable .bothRef (setPos x.core p) rn vn = none := reusable_empty _ _ _ _ (by rw [hset])
+  simp only [xstep, xstepWith, stepWith, targetPos, callAt, hre, namesStep, hp, if_false, crfStored, krigeStored,
+    saveName, Names.empty]
+  refine ⟨?_, ?_, ?_, ?_, ?_⟩
+  · cases a.fSave <;> simp [NameSet.add, NameSet.empty]
+  · cases a.rfSave <;> simp [NameSet.add, NameSet.empty]
+  · cases st <;> simp [freshRun, hset, FieldStore.set, FieldStore.empty]
+    by_cases h : n = rn <;> simp [h]
+  · cases a.kfSave <;> simp [NameSet.add, NameSet.empty]
+  · cases kst <;> simp [freshRun, hset, FieldStore.set, FieldStore.empty]
+    by_cases h : n = vn <;> simp [h]
+
+/-- a direct kriging call on a new mesh keeps nothing of the earlier meshes in the Krige object -/
+theorem krigeCall_change_stores_exactly (x : XState) (p : Nat) (store : Option Nat) (a : Aux)
+    (hp : x.core.pos ≠ some p) (n : Nat) :
+    let x' := (xstep x (.krigeCall (some p) store) a).1
+    (krigeStored x' 0 n = (a.kfSave && decide (n = a.kfName))) ∧
+    (krigeStored x' 1 n = decide (store = some n)) := by
+  have hset : krigeSetPos x.core p = { x.core with pos := some p, var := FieldStore.empty } := by
+    unfold krigeSetPos; simp [hp]
+  simp only [xstep, xstepWith, stepWith, targetPos, krigeCallAt, namesStep, hp, if_false, krigeStored, saveName]
+  refine ⟨?_, ?_⟩
+  · cases a.kfSave <;> simp [NameSet.add, NameSet.empty]
+  · cases store with
+    | none => simp [hset, FieldStore.empty]
+    | some vn =>
+      simp only [hset, FieldStore.set, FieldStore.empty, Option.some.injEq]
+      by_cases h : n = vn
+      · simp [h]
+      · have h' : ¬ vn = n := fun e => h e.symm
+        simp [h, h']
+
+/-- **several meshes, then an invalidation, then a call WITHOUT positions**: the histories of the property's second
+    half.  After any history `pre` (any number of meshes, names, direct kriging calls …) of a freshly built object,
+    `set_condition` (new data or refresh) followed by harmless operations returns fresh results at every call, and
+    right after the `set_condition` the Krige object stores nothing — in particular no kriging variance of an earlier
+    mesh or of the earlier conditions can be paired with a surviving raw kriging field. -/
+theorem meshes_then_refresh (c m mu : Nat) (pre : List (Op × Aux)) (c? : Option Nat) (a : Aux) (post : List Op)
+    (hpost : ∀ op ∈ post, Harmless op) :
+    let x := (xstep (xrun (xinit c m mu) pre) (.setCondition c?) a).1
+    (∀ slot n, krigeStored x slot n = false) ∧ AllFresh x.core post := by
+  have hl : ∀ (l : List (Op × Aux)) (x : XState), LinkInv x.core → LinkInv (xrun x l).core := by
+    intro l
+    induction l with
+    | nil => intro x h; exact h
+    | cons oa l ih =>
+      intro x h
+      obtain ⟨o, a'⟩ := oa
+      exact ih _ (step_linkInv x.core o h)
+  refine ⟨fun slot n => setCondition_clears _ c? a slot n, ?_⟩
+  exact histories_fresh post hpost _ (step_linkInv _ _ (hl pre _ (init_linkInv c m mu))) (refresh_syncs _ c?)
+
+/-- the scenario class on concrete identifiers: two meshes (7, then 8), new conditioning data, call without positions —
+    nothing of mesh 7 or of the old data is left, the call computes afresh and equals the fresh object -/
+example : let x := xrun (xinit 1 1 1) [(.call (some 7) 0 true 0 true, {}), (.call (some 8) 0 true 0 true, {}),
+                                       (.setCondition (some 2), {})]
+    (∀ slot n, krigeStored x slot n = false) ∧
+    (xstep x (.call none 0 true 0 true) {}).2 = some (freshTok x.core 8, freshTok x.core 8, false) := by
+  refine ⟨?_, by decide⟩
+  intro slot n
+  exact setCondition_clears _ (some 2) {} slot n
+
+/-- … and with a third mesh through `set_pos`: both objects are empty afterwards -/
+example : let x := xrun (xinit 1 1 1) [(.call (some 7) 0 true 0 true, {}), (.call (some 8) 1 true 1 true, { fName := 1 }),
+                                       (.setPos 9, {})]
+    (∀ slot n, crfStored x slot n = false ∧ krigeStored x slot n = false) := by
+  intro x slot n
+  exact setPos_change_clears _ 9 {} (by decide) slot n
+
 end GSV.Props.C07
